@@ -242,7 +242,8 @@ def _array(obj, dtype=None, copy=True, order='K', subok=False, ndmin=0, **kw):
     if isinstance(obj, (Sym, SymExpBase)):
         A = _np.empty((), dtype=object)
         A[()] = obj
-        return A
+        # (an integer dtype request truncates a real scalar like it does for arrays)
+        return _from_object(A, dtype, False) if dtype is not None else A
     if has_sym(obj):
         A = _np.array(obj, dtype=object)
         # nested Sym containers: np.array builds the right shape because Sym is
